@@ -1,7 +1,7 @@
 (* C12 - Every shuffle is a permutation, for every iterator in flight.  The random generator is an oracle:
    whatever permutation / choice numpy produces is a universally quantified argument. *)
 From Coq Require Import List Arith Bool Permutation.
-Require Import LD.Shuffle LD.ShuffleProofs LD.ShuffleFreeze LD.ShuffleFreezeProofs.
+Require Import LD.Shuffle LD.ShuffleProofs LD.ShuffleFreeze LD.ShuffleFreezeProofs LD.ShuffleCopies LD.ShuffleCopiesProofs.
 Require LD.Ref.
 Import ListNotations.
 
@@ -79,3 +79,28 @@ Proof. exact frozen_alias_refuted. Qed.
 Print Assumptions C12_frozen_copy_in_flight_nodup.
 Print Assumptions C12_frozen_copy_exhausted_is_perm.
 Print Assumptions C12_frozen_alias_refuted.
+
+(* a per-epoch reshuffle dataset and its PLAIN copies (copy(), a copy of a copy, the copy under a copied map stage, the
+   profiler's internal copy) - ShuffleCopies.v: every object has an index array of its own.  For every history of epochs,
+   next() calls and further copies on ALL objects and every oracle: an iterator started on object o yields a prefix of the
+   array object o got at that start and, after n items, a permutation of the positions - provided no other iterator of
+   object o ITSELF is started in between (that case is the known finding F9 above) *)
+Theorem C12_plain_copies_do_not_interact : forall n pre sigma ops o st,
+  Forall (cop_ok n) pre -> Permutation sigma (seq 0 n) -> Forall (no_start_on o) ops ->
+  nth_error (crun n (cinit n) pre) o = Some st ->
+  let it := length (pos st) in
+  let s' := crun n (crun n (cinit n) pre) (COn o (RStart sigma) :: ops) in
+  exists st', nth_error s' o = Some st' /\
+    nth it (outs st') [] = firstn (length (nth it (outs st') [])) (apply_perm sigma (arr st)) /\
+    (length (nth it (outs st') []) = n -> Permutation (nth it (outs st') []) (seq 0 n)).
+Proof. exact copies_single_start. Qed.
+Theorem C12_reachable_objects_hold_permutations : forall n ops, Forall (cop_ok n) ops -> Forall (obj_ok n) (crun n (cinit n) ops).
+Proof. exact crun_inv. Qed.
+(* the same model with copies that share ONE index array (what the seeded changes C12h / C20d do) is refuted *)
+Theorem C12_plain_copy_alias_refuted :
+  exists n ops, Forall (cop_ok n) ops /\ Forall (no_start_on 0) (tl ops) /\
+    exists ps os, nth_error (aobjs (arun (ainit n) ops)) 0 = Some (ps, os) /\ ~ NoDup (nth 0 os []).
+Proof. exact copies_alias_refuted. Qed.
+Print Assumptions C12_plain_copies_do_not_interact.
+Print Assumptions C12_reachable_objects_hold_permutations.
+Print Assumptions C12_plain_copy_alias_refuted.
